@@ -143,6 +143,13 @@ func zzInstallMbolt() *mbolt {
 		return tx, nil
 	})
 	verifrt.StubFunc(zzB+"DB).Close", func(d *bbolt.DB) error {
+		// bbolt's Close takes the mmap lock exclusively: it waits for every
+		// open transaction to finish
+		for _, mt := range m.txs {
+			if mt.db == m.dbs[d] && !mt.done {
+				panic("mbolt: Close while a transaction is still open (the real bbolt would block forever)")
+			}
+		}
 		m.dbs[d].closed = true
 		return nil
 	})
@@ -364,7 +371,9 @@ func zzOpenDB() (walletdb.DB, func() walletdb.DB) {
 		m.dbs[bdb] = &mDB{root: memdb.NewTree()}
 		d := (*db)(bdb)
 		return d, func() walletdb.DB {
-			// close and reopen: the model keeps the committed root
+			// close (through the adapter) and reopen: the model keeps the
+			// committed root
+			verifrt.Assert(d.Close() == nil, "c11-close-ok")
 			m.dbs[bdb].closed = false
 			return d
 		}
@@ -604,6 +613,30 @@ func zzC11(nTx, nOps int) {
 		}
 		// all-or-nothing, and the database is still usable
 		zzCheckContent(d, ref, "c11")
+	}
+	// a read-only transaction that ends in an error or a panic changes
+	// nothing and leaves the database usable (its transaction is released:
+	// the close below would otherwise never return)
+	switch verifrt.Choice(3, "final-view") {
+	case 1:
+		verr := walletdb.View(d, func(tx walletdb.ReadTx) error {
+			verifrt.Assert(tx.ReadBucket([]byte("t")) != nil, "c11-view-sees-top-bucket")
+			return zzErrAbort
+		})
+		verifrt.Assert(verr == zzErrAbort, "c11-view-error-propagated")
+		verifrt.Reach("view-failed")
+	case 2:
+		vp := false
+		func() {
+			defer func() {
+				if recover() != nil {
+					vp = true
+				}
+			}()
+			walletdb.View(d, func(tx walletdb.ReadTx) error { panic("harness: panic inside view") })
+		}()
+		verifrt.Assert(vp, "c11-view-panic-propagated")
+		verifrt.Reach("view-panicked")
 	}
 	d = reopen()
 	zzCheckContent(d, ref, "c11-reopened")
